@@ -206,6 +206,7 @@ BODY_KINDS = {
     "invalid-2.0": lambda: _r(A, A, 17, True),
     "invalid-1.0": lambda: _r(5, [], 18, False),
     "invalid-non-object": lambda: 5,
+    "invalid-no-version": lambda: {"method": "ok", "params": []},
     "empty-array": lambda: [],
     "echo-1.0": lambda: _r("echo", {"a": [1, {"b": None}]}, 19, False),
     "bad-arity-1.0": lambda: _r("two", [1], 20, False),
